@@ -44,10 +44,18 @@ What is proved instead:
   argument) cannot fire on any document (it was `frontend_panics_n2_only_if`: "only if some field
   has an enum literal among its arguments"); such an argument is an `InvalidEdgeParameterType`
   error now (regression example below);
-* N-5 / F-C10-5 (a schema that declares an edge parameter twice, accepted by `Schema::new`) is the
-  witness that `ValidSchemaView`'s `paramsDistinct` clause is needed (`paramDuplicate_witness`).
+* N-5 / F-C10-5, REPAIRED in schema validation: a schema that declares an edge parameter twice used to
+  be accepted by `Schema::new`, and every query through such an edge panicked at mod.rs:195
+  (`paramDuplicate_witness`: the frontend code is unchanged, its `unwrap` still relies on distinct
+  names — the witness shows that `ValidSchemaView`'s `paramsDistinct` clause is needed).  Since the
+  repair `Schema::new` rejects such a schema (`DuplicateFieldParameterDefinition`), so the clause is
+  something schema validation GUARANTEES: `schema_parse_params_distinct` (for every schema document,
+  no guard, the view of an accepted schema has distinct parameter names per field; from
+  `TF.C19.accepted_params_distinct`).  The finding is therefore no longer reachable through a schema
+  accepted by `Schema::parse`.
 -/
 import TrustfallModel.Proofs.FrontendTop
+import TrustfallModel.Proofs.FrontendSchemaParse
 
 namespace TF.C10
 open TF.FE
@@ -270,8 +278,12 @@ theorem frontend_total_false :
       ∀ s, compile S doc ≠ .panic s :=
   fun h => h miniSchema _ miniSchema_valid (by decide +kernel) _ n6_witness
 
-/-- **N-5**: `type Root { A(x: Int, x: Int): A }  type A { v: Int }` is accepted by `Schema::new`
-but is not a `ValidSchemaView`; every query through `A` panics at mod.rs:195. -/
+/-- **N-5** (F-C10-5, repaired in `Schema::new`): `type Root { A(x: Int, x: Int): A }  type A { v: Int }`
+is not a `ValidSchemaView`; against such a schema every query through `A` panics at mod.rs:195 — the
+frontend itself is unchanged.  Before the repair `Schema::new` accepted this schema, so the panic was
+reachable from schema text + query text; now `Schema::new` returns
+`DuplicateFieldParameterDefinition("Root", "A", "x")` (`TF.C19`, regression example) and the frontend
+never sees it (`schema_parse_params_distinct`). -/
 def dupParamSchema : SchemaView := ⟨"Root", [], [
   ⟨"Root", false, [], [⟨"A", ⟨"A", true, []⟩, [⟨"x", tyInt, false⟩, ⟨"x", tyInt, false⟩]⟩]⟩,
   ⟨"A", false, [], [⟨"v", tyInt, []⟩]⟩]⟩
@@ -280,6 +292,23 @@ theorem paramDuplicate_witness :
     compile dupParamSchema (single (fld "A" [] [fld "v" [dOutput]])) = .panic .paramDuplicate ∧
     validSchemaViewB dupParamSchema = false :=
   ⟨Res.cls_eq_panic.mp (by decide +kernel), by decide⟩
+
+/-- **`Schema::parse` accepts ⇒ distinct parameter names** (the `paramsDistinct` clause of
+`ValidSchemaView`): for every schema document `doc` — no guard — if the model of `Schema::new` returns
+`Ok(s)`, then in the frontend's view of `s` every field declares each parameter name once.  So the
+hypothesis under which `make_edge_parameters`' `unwrap` (site `paramDuplicate`) is unreachable is
+established by schema validation itself since the repair of F-C10-5. -/
+theorem schema_parse_params_distinct (doc : TF.SchemaDoc.Doc) (s : TF.SchemaDoc.Schema)
+    (h : TF.SchemaDoc.Schema.new doc = .ok (.ok s)) :
+    ∀ t ∈ (viewOfSchema s).types, ∀ f ∈ t.fields, (f.params.map (·.name)).Nodup :=
+  parse_accepts_paramsDistinct h
+
+/-- … and the schema of the witness, as a document, is rejected by that model. -/
+example : TF.SchemaDoc.rejectsWith
+    [.schema "Root",
+     .type ⟨"Root", false, [], [⟨"A", .named "A" false, [⟨"x", .named "Int" false, none⟩, ⟨"x", .named "Int" false, none⟩]⟩]⟩,
+     .type ⟨"A", false, [], [⟨"v", .named "Int" false, []⟩]⟩]
+    = some [.duplicateFieldParameterDefinition "Root" "A" "x"] := by decide
 
 /-! Non-vacuity: the guards hold of ordinary queries, and fail exactly on the witnesses. -/
 example : NoKnownTrigger miniSchema (single (fld "A" [] [fld "value" [dOutput, dFilter "<" "$x"],
@@ -311,3 +340,4 @@ end TF.C10
 #print axioms TF.C10.n6_witness
 #print axioms TF.C10.frontend_total_false
 #print axioms TF.C10.paramDuplicate_witness
+#print axioms TF.C10.schema_parse_params_distinct
